@@ -54,5 +54,22 @@ Record verdict := { v_corr : bool; v_prop : bool; v_tags : list string; v_note :
 Definition verdict_line (v : verdict) : string :=
   "c=" ++ b2s (v_corr v) ++ " p=" ++ b2s (v_prop v) ++ " t=" ++ join "," (v_tags v)
        ++ " n=" ++ v_note v.
+Fixpoint digits (fuel n : nat) (acc : string) : string :=
+  match fuel with
+  | O => acc
+  | S f =>
+      let d := String (ascii_of_nat (48 + Nat.modulo n 10)) acc in
+      match Nat.div n 10 with O => d | n' => digits f n' d end
+  end.
+Definition nat_to_string (n : nat) : string := digits (S n) n "".
+(** index of the first position where two lists differ (or the shorter length) *)
+Fixpoint first_diff {A} (eqb : A -> A -> bool) (a b : list A) (i : nat) : option nat :=
+  match a, b with
+  | [], [] => None
+  | x :: a', y :: b' => if eqb x y then first_diff eqb a' b' (S i) else Some i
+  | _, _ => Some i
+  end.
+Definition diff_note {A} (eqb : A -> A -> bool) (a b : list A) : string :=
+  match first_diff eqb a b O with None => "" | Some i => "first-diff-at-" ++ nat_to_string i end.
 Definition nl : string := String (ascii_of_nat 10) EmptyString.
 Definition verdict_lines (vs : list verdict) : string := join nl (map verdict_line vs).
